@@ -162,7 +162,7 @@ Theorem pdu_bytes_roundtrip : forall d cid payload,
 Proof.
   intros d cid payload Hok Hp Hlen.
   destruct d as [|l0 [|l1 [|c0 [|c1 r]]]]; try discriminate.
-  cbn [pdu_parse] in Hp. injection Hp as <- <-.
+  cbn [pdu_parse] in Hp. apply some_pair_inv in Hp as [<- <-].
   cbn [firstn] in Hlen.
   rewrite !bytes_ok_cons in Hok. rewrite !andb_true_iff in Hok.
   destruct Hok as [Hl0 [Hl1 [Hc0 [Hc1 Hr]]]].
@@ -289,6 +289,17 @@ Proof.
     + inversion H; subst. split; [reflexivity|]. cbn. rewrite <- Z.negb_odd, Eo. reflexivity.
 Qed.
 
+Lemma le_decode_zero_last : forall e, bytes_ok e = true -> le_decode e = 0 -> last e 0 = 0.
+Proof.
+  induction e as [|b e IH]; intros Hok Hz; [reflexivity|].
+  rewrite bytes_ok_cons in Hok. apply andb_true_iff in Hok as [Hb He].
+  apply byte_ok_iff in Hb. pose proof (le_decode_range e He) as Hr.
+  cbn [le_decode] in Hz.
+  destruct e as [|b' e']; [cbn; lia|].
+  change (last (b :: b' :: e') 0) with (last (b' :: e') 0).
+  apply IH; [exact He|lia].
+Qed.
+
 Lemma psm_tail_canonical : forall e fuel,
   bytes_ok e = true -> (length e <= fuel)%nat ->
   (e = [] \/ last e 0 <> 0) -> psm_tail fuel (le_decode e) = e.
@@ -296,26 +307,18 @@ Proof.
   induction e as [|b e IH]; intros fuel Hok Hlen Hc.
   - destruct fuel; reflexivity.
   - destruct fuel as [|k]; [cbn in Hlen; lia|].
+    pose proof Hok as Hok0.
     rewrite bytes_ok_cons in Hok. apply andb_true_iff in Hok as [Hb He].
     apply byte_ok_iff in Hb. pose proof (le_decode_range e He) as Hr.
-    cbn [le_decode psm_tail].
-    assert (Hnz : b + 256 * le_decode e <> 0).
-    { destruct Hc as [Hc|Hc]; [discriminate|].
-      destruct e as [|b' e'].
-      - cbn in Hc. cbn. lia.
-      - assert (Hl : last (b' :: e') 0 <> 0) by exact Hc.
-        intro Hz. assert (le_decode (b' :: e') = 0) by lia.
-        clear - He H Hl. revert b' He H Hl. induction e' as [|c e' IH']; intros b' He H Hl.
-        + cbn in *. lia.
-        + rewrite bytes_ok_cons in He. apply andb_true_iff in He as [Hb' He'].
-          apply byte_ok_iff in Hb'. pose proof (le_decode_range (c :: e') He') as Hr.
-          cbn [le_decode] in H. fold (le_decode (c :: e')) in H.
-          apply (IH' c He'); [cbn [le_decode] in *; lia|]. exact Hl. }
+    assert (Hnz : le_decode (b :: e) <> 0).
+    { intro Hz. destruct Hc as [Hc|Hc]; [discriminate|].
+      apply Hc. apply le_decode_zero_last; assumption. }
+    cbn [le_decode psm_tail] in *.
     apply Z.eqb_neq in Hnz. rewrite Hnz.
     rewrite land_255 by lia. rewrite Z.shiftr_div_pow2 by lia. change (2 ^ 8) with 256.
-    replace (b + 256 * le_decode e) with (le_decode e * 256 + b) by lia.
-    rewrite Z.mod_add by lia. rewrite Z.div_add_l by lia.
-    rewrite Z.mod_small by lia. rewrite Z.div_small by lia. rewrite Z.add_0_r.
+    replace (b + 256 * le_decode e) with (b + le_decode e * 256) by lia.
+    rewrite Z.mod_add by lia. rewrite Z.div_add by lia.
+    rewrite Z.mod_small by lia. rewrite Z.div_small by lia. rewrite Z.add_0_l.
     f_equal. apply IH; [exact He | cbn in Hlen; lia |].
     destruct e as [|b' e']; [left; reflexivity|right].
     destruct Hc as [Hc|Hc]; [discriminate|]. exact Hc.
@@ -331,19 +334,13 @@ Proof.
   - cbn. lia.
   - assert (Hl' : last (b' :: e') 0 <> 0) by exact Hl.
     specialize (IH He ltac:(discriminate) Hl').
-    cbn [le_decode] in *. fold (le_decode (b' :: e')) in *.
+    assert (Hw : 0 < le_decode (b' :: e')).
+    { destruct (Z.eq_dec (le_decode (b' :: e')) 0) as [Hz|]; [|lia]. exfalso.
+      apply Hl'. apply le_decode_zero_last; assumption. }
     set (w := le_decode (b' :: e')) in *.
-    assert (Hw : 0 < w).
-    { destruct (Z.eq_dec w 0) as [Hz|]; [|lia]. exfalso.
-      clear - He Hz Hl'. subst w. revert b' He Hz Hl'. induction e' as [|c e' IH']; intros.
-      - cbn in *. lia.
-      - rewrite bytes_ok_cons in He. apply andb_true_iff in He as [Hb' He'].
-        apply byte_ok_iff in Hb'. pose proof (le_decode_range (c :: e') He').
-        cbn [le_decode] in Hz. fold (le_decode (c :: e')) in Hz.
-        apply (IH' c He'); [cbn [le_decode] in *; lia|exact Hl']. }
+    change (le_decode (b :: b' :: e')) with (b + 256 * w).
     assert (Hlog : Z.log2 w + 8 <= Z.log2 (b + 256 * w)).
-    { replace (b + 256 * w) with (w * 2 ^ 8 + b) by (change (2 ^ 8) with 256; lia).
-      rewrite <- (Z.log2_mul_pow2 w 8) by lia.
+    { replace (Z.log2 w + 8) with (Z.log2 (w * 2 ^ 8)) by (rewrite Z.log2_mul_pow2 by lia; lia).
       apply Z.log2_le_mono. change (2 ^ 8) with 256. lia. }
     assert (Hd : Z.log2 w / 8 + 1 <= Z.log2 (b + 256 * w) / 8).
     { replace (Z.log2 w / 8 + 1) with ((Z.log2 w + 1 * 8) / 8) by (rewrite Z.div_add by lia; reflexivity).
@@ -360,7 +357,7 @@ Proof.
   intros d v rest Hok Hp.
   destruct d as [|b0 [|b1 r]]; try discriminate.
   cbn [psm_parse] in Hp. destruct (psm_more b1 r) as [[e rest']|] eqn:Em; [|discriminate].
-  injection Hp as <- <-.
+  apply some_pair_inv in Hp as [Hv0 Hr0]. subst rest' v.
   apply psm_more_split in Em as [-> Hoct].
   exists (b0 :: b1 :: e). split; [reflexivity|]. split; [exact Hoct|].
   assert (Hok' : bytes_ok (b0 :: b1 :: e) = true).
@@ -374,18 +371,18 @@ Proof.
   assert (Hv : v = b0 + 256 * b1 + 65536 * le_decode e) by (subst v; cbn [le_decode]; lia).
   unfold psm_bytes. rewrite land_65535 by lia.
   assert (Hm : v mod 65536 = b0 + 256 * b1).
-  { rewrite Hv. replace (b0 + 256 * b1 + 65536 * le_decode e) with (le_decode e * 65536 + (b0 + 256 * b1)) by lia.
+  { rewrite Hv. replace (b0 + 256 * b1 + 65536 * le_decode e) with ((b0 + 256 * b1) + le_decode e * 65536) by lia.
     rewrite Z.mod_add by lia. apply Z.mod_small. lia. }
   assert (Hd : Z.shiftr v 16 = le_decode e).
   { rewrite Z.shiftr_div_pow2 by lia. change (2 ^ 16) with 65536. rewrite Hv.
-    replace (b0 + 256 * b1 + 65536 * le_decode e) with (le_decode e * 65536 + (b0 + 256 * b1)) by lia.
-    rewrite Z.div_add_l by lia. rewrite (Z.div_small (b0 + 256 * b1)) by lia. lia. }
+    replace (b0 + 256 * b1 + 65536 * le_decode e) with ((b0 + 256 * b1) + le_decode e * 65536) by lia.
+    rewrite Z.div_add by lia. rewrite (Z.div_small (b0 + 256 * b1)) by lia. lia. }
   rewrite Hm, Hd. cbn [le_encode app].
   replace ((b0 + 256 * b1) mod 256) with b0.
-  2:{ replace (b0 + 256 * b1) with (b1 * 256 + b0) by lia. rewrite Z.mod_add by lia. symmetry. apply Z.mod_small. lia. }
+  2:{ replace (b0 + 256 * b1) with (b0 + b1 * 256) by lia. rewrite Z.mod_add by lia. symmetry. apply Z.mod_small. lia. }
   replace (((b0 + 256 * b1) / 256) mod 256) with b1.
-  2:{ replace (b0 + 256 * b1) with (b1 * 256 + b0) by lia. rewrite Z.div_add_l by lia.
-      rewrite (Z.div_small b0) by lia. rewrite Z.add_0_r. symmetry. apply Z.mod_small. lia. }
+  2:{ replace (b0 + 256 * b1) with (b0 + b1 * 256) by lia. rewrite Z.div_add by lia.
+      rewrite (Z.div_small b0) by lia. rewrite Z.add_0_l. symmetry. apply Z.mod_small. lia. }
   f_equal. f_equal.
   destruct e as [|x e'].
   - unfold psm_fuel. reflexivity.
@@ -514,7 +511,7 @@ Theorem sig_bytes_roundtrip : forall d code ident len payload,
 Proof.
   intros d code ident len payload Hok Hp Hlen.
   destruct d as [|c [|i [|l0 [|l1 r]]]]; try discriminate.
-  cbn [sig_parse] in Hp. injection Hp as <- <- <- <-.
+  cbn [sig_parse] in Hp. apply some_quad_inv in Hp as [<- [<- [<- <-]]].
   rewrite !bytes_ok_cons in Hok. rewrite !andb_true_iff in Hok. destruct Hok as [Hc [Hi [H0 [H1 Hr]]]].
   unfold sig_bytes. rewrite <- Hlen.
   assert (Hb2 : bytes_ok [l0; l1] = true) by (cbn; rewrite H0, H1; reflexivity).
@@ -524,3 +521,6 @@ Proof.
   replace (u_range 1 i) with true by (symmetry; apply u_range_iff; apply byte_ok_iff in Hi; cbn; lia).
   cbn [andb]. rewrite (le_encode_decode_n 2 [l0; l1] eq_refl Hb2). reflexivity.
 Qed.
+
+Lemma tlv_decode_all_total : forall d, tlv_decode_all false d <> None.
+Proof. intro d. exact (tlv_lenient_total (S (length d)) d (Nat.lt_succ_diag_r _)). Qed.
